@@ -153,7 +153,7 @@ typedef struct
 	sf_count_t	header_indx, header_len ;
 	int			last_op, have_written, error, channels, mode, blockwidth, bytewidth ;
 	unsigned	rchunks_used, rchunks_count, wchunks_used, wchunks_count ;
-	int			norm_float, norm_double, add_clipping, auto_header, scale_int_float, float_int_mult ;
+	int			norm_float, norm_double, add_clipping, auto_header, scale_int_float, float_int_mult, endian ;
 	uint64_t	codec_hash, container_hash ;
 } PeekState ;
 
